@@ -342,3 +342,172 @@ Proof.
   assert (E : (0 <? dig)%Z = false) by (apply Z.ltb_ge; exact H). rewrite E.
   apply (round_dec_on_grid 0 (- dig) z); [lia|]. rewrite pow10_0. ring.
 Qed.
+
+(* ================================================================================================ *)
+(* round 2: idempotence of the significant-digit rounding INCLUDING the carry to the next power of ten  *)
+(* ================================================================================================ *)
+(* ---- unconditional idempotence of the significant-digit rounding --------------------------------- *)
+Lemma rnd_he_ge (a : Z) (x : Q) : inject_Z a <= x -> (a <= rnd_he x)%Z.
+Proof.
+  intro H. pose proof (rnd_he_err x) as E. apply Qabs_Qle_condition in E. unfold Qhalf in E.
+  destruct E as [_ E2].
+  assert (L : inject_Z a - 1 < inject_Z (rnd_he x)) by lra.
+  change 1 with (inject_Z 1) in L. unfold Qminus in L. rewrite <- inject_Z_opp, <- inject_Z_plus in L.
+  rewrite <- Zlt_Qlt in L. lia.
+Qed.
+Lemma rnd_he_le (b : Z) (x : Q) : x <= inject_Z b -> (rnd_he x <= b)%Z.
+Proof.
+  intro H. pose proof (rnd_he_err x) as E. apply Qabs_Qle_condition in E. unfold Qhalf in E.
+  destruct E as [E1 _].
+  assert (L : inject_Z (rnd_he x) < inject_Z b + 1) by lra.
+  change 1 with (inject_Z 1) in L. rewrite <- inject_Z_plus in L.
+  rewrite <- Zlt_Qlt in L. lia.
+Qed.
+Lemma rnd_he_abs_le (b : Z) (x : Q) : Qabs x <= inject_Z b -> (Z.abs (rnd_he x) <= b)%Z.
+Proof.
+  intro H. apply Qabs_Qle_condition in H. destruct H as [H1 H2].
+  rewrite <- inject_Z_opp in H1. apply rnd_he_ge in H1. apply rnd_he_le in H2. lia.
+Qed.
+
+Lemma pow10_lt (a b : Z) : (a < b)%Z -> pow10 a < pow10 b.
+Proof.
+  intro H. replace b with (a + (b - a))%Z by lia. rewrite pow10_plus.
+  assert (P : 1 < pow10 (b - a)).
+  { rewrite pow10_nonneg_int by lia.
+    assert (T : (10 ^ 1 <= 10 ^ (b - a))%Z) by (apply Z.pow_le_mono_r; lia).
+    change 1 with (inject_Z 1). rewrite <- Zlt_Qlt. change (10 ^ 1)%Z with 10%Z in T. lia. }
+  pose proof (pow10_pos a) as Pa. nra.
+Qed.
+Lemma pow10_lt_inv (a b : Z) : pow10 a < pow10 b -> (a < b)%Z.
+Proof.
+  intro H. destruct (Z_lt_ge_dec a b) as [L|L]; [exact L|]. exfalso.
+  pose proof (pow10_mono b a ltac:(lia)). lra.
+Qed.
+
+Lemma Qabs_inject_mult (z : Z) (g : Q) : 0 < g -> Qabs (inject_Z z * g) == inject_Z (Z.abs z) * g.
+Proof. intro H. rewrite Qabs_Qmult, (Qabs_pos g) by lra. reflexivity. Qed.
+
+Lemma sig_exp_spec (d : Q) :
+  let e := sig_exp d in
+  (-12 <= e <= 388)%Z /\ (e = (-12)%Z \/ pow10 (e - 1) < Qabs d + log_offset) /\
+  ((e < 388)%Z -> Qabs d + log_offset <= pow10 e).
+Proof. exact (ceil_log10_spec (Qabs d + log_offset)). Qed.
+
+Lemma canonQ_eq (a b : Q) : Qred a = a -> Qred b = b -> a == b -> a = b.
+Proof. intros A B E. rewrite <- A, <- B. apply Qred_complete. exact E. Qed.
+
+(* the carry case: the rounded value has a larger exponent than the input.  Then it is exactly
+   +-10^e (e the input's exponent), its exponent is e+1, and 10^e lies on the coarser grid too. *)
+Lemma round_sig_carry (dig : Z) (d : Q) (e e' : Z) (r : Q) :
+  (0 < dig)%Z -> e = sig_exp d -> r = round_dec (dig - e) d -> e' = sig_exp r -> (e < e')%Z ->
+  e' = (e + 1)%Z /\ exists s : Z, (s = 1 \/ s = -1)%Z /\ r == inject_Z (s * 10 ^ (dig - 1)) * pow10 (- (dig - (e + 1))).
+Proof.
+  intros Hd He Hr He' Hlt.
+  destruct (sig_exp_spec d) as (Be & _ & Ue). rewrite <- He in Be, Ue.
+  destruct (sig_exp_spec r) as (Br & Lr & _). rewrite <- He' in Br, Lr.
+  assert (X : Qabs d + log_offset <= pow10 e) by (apply Ue; lia).
+  assert (Y : pow10 e < Qabs r + log_offset).
+  { destruct Lr as [Lr|Lr]; [lia|]. eapply Qle_lt_trans; [|exact Lr]. apply pow10_mono. lia. }
+  assert (Rv0 : r == inject_Z (mant (dig - e) d) * pow10 (e - dig)).
+  { rewrite Hr, round_dec_val. replace (- (dig - e))%Z with (e - dig)%Z by lia. reflexivity. }
+  assert (GK0 : pow10 (e - dig) * pow10 (dig - e) == 1).
+  { rewrite <- pow10_plus. replace (e - dig + (dig - e))%Z with 0%Z by lia. reflexivity. }
+  assert (ZK : mant (dig - e) d = rnd_he (d * pow10 (dig - e))) by reflexivity.
+  assert (PN0 : pow10 e == inject_Z (10 ^ dig) * pow10 (e - dig)).
+  { rewrite <- pow10_nonneg_int by lia. rewrite <- pow10_plus. replace (dig + (e - dig))%Z with e by lia. reflexivity. }
+  assert (G10 : pow10 (- (dig - (e + 1))) == (10 # 1) * pow10 (e - dig)).
+  { replace (- (dig - (e + 1)))%Z with ((e - dig) + 1)%Z by lia. rewrite pow10_succ. ring. }
+  assert (OgA : (-12 <= e - dig)%Z -> log_offset <= pow10 (e - dig)) by (intro CA; rewrite log_offset_pow; apply pow10_mono; exact CA).
+  assert (OMB : (e - dig < -12)%Z -> log_offset == inject_Z (10 ^ (dig - e - 12)) * pow10 (e - dig)).
+  { intro CB. rewrite <- pow10_nonneg_int by lia. rewrite <- pow10_plus.
+    replace (dig - e - 12 + (e - dig))%Z with (-12)%Z by lia. apply log_offset_pow. }
+  assert (Pg : 0 < pow10 (e - dig)) by apply pow10_pos. assert (PK : 0 < pow10 (dig - e)) by apply pow10_pos.
+  assert (Oe : log_offset <= pow10 e) by (rewrite log_offset_pow; apply pow10_mono; lia).
+  assert (S10 : pow10 (e + 1) == pow10 e * (10 # 1)) by apply pow10_succ.
+  assert (LT' : pow10 (e' - 1) < pow10 (e + 1) -> (e' - 1 < e + 1)%Z) by apply pow10_lt_inv.
+  remember (mant (dig - e) d) as z eqn:Hz. remember (pow10 (e - dig)) as g eqn:Hg. remember (pow10 (dig - e)) as K eqn:HK.
+  remember (pow10 e) as P eqn:HP. remember (pow10 (e + 1)) as P1 eqn:HP1. remember (pow10 (e' - 1)) as P' eqn:HP'.
+  remember (pow10 (- (dig - (e + 1)))) as g1 eqn:Hg1.
+  clear He Hr He' Ue.
+  pose proof Rv0 as Rv. pose proof GK0 as GK. pose proof PN0 as PN.
+  assert (Ra : Qabs r == inject_Z (Z.abs z) * g) by (rewrite Rv; apply Qabs_inject_mult; exact Pg).
+  assert (E10 : (10 ^ dig = 10 * 10 ^ (dig - 1))%Z).
+  { replace dig with (Z.succ (dig - 1)) at 1 by lia. apply Z.pow_succ_r. lia. }
+  remember (10 ^ dig)%Z as N eqn:HN. remember (10 ^ (dig - 1))%Z as N1 eqn:HN1.
+  assert (Oo : 0 < log_offset) by reflexivity.
+  assert (Qa : Qabs (d * K) == Qabs d * K) by (rewrite Qabs_Qmult, (Qabs_pos K) by lra; reflexivity).
+  pose proof (Qabs_nonneg d) as Dn.
+  destruct (Z_le_gt_dec (-12) (e - dig)) as [CA|CB].
+  - (* the grid is not finer than the offset *)
+    assert (Og : log_offset <= g) by (apply OgA; exact CA).
+    assert (ZU : (Z.abs z <= N)%Z).
+    { rewrite ZK. apply rnd_he_abs_le. rewrite Qa.
+      assert (NK : inject_Z N == P * K).
+      { rewrite PN. setoid_replace (inject_Z N * g * K) with (inject_Z N * (g * K)) by ring. rewrite GK. ring. }
+      rewrite NK. apply Qmult_le_compat_r; lra. }
+    assert (ZL : (N <= Z.abs z)%Z).
+    { assert (T : inject_Z N * g < (inject_Z (Z.abs z) + 1) * g) by (rewrite <- PN, Ra in *; lra).
+      apply Qmult_lt_r in T; [|exact Pg]. change 1 with (inject_Z 1) in T. rewrite <- inject_Z_plus, <- Zlt_Qlt in T. lia. }
+    assert (ZE : Z.abs z = N) by lia.
+    assert (RA : Qabs r == P) by (rewrite Ra, ZE, PN; reflexivity).
+    assert (E' : e' = (e + 1)%Z).
+    { assert (T : P' < P1).
+      { destruct Lr as [Lr|Lr]; [lia|]. eapply Qlt_le_trans; [exact Lr|]. rewrite RA, S10. lra. }
+      apply LT' in T. lia. }
+    split; [exact E'|].
+    assert (C : (z = N \/ z = - N)%Z) by lia.
+    destruct C as [C|C].
+    + exists 1%Z. split; [left; reflexivity|]. rewrite Rv, C, E10, G10, Z.mul_1_l, inject_Z_mult.
+      change (inject_Z 10) with (10 # 1). ring.
+    + exists (-1)%Z. split; [right; reflexivity|]. rewrite Rv, C, E10, G10.
+      replace (-1 * N1)%Z with (- N1)%Z by lia. rewrite !inject_Z_opp, inject_Z_mult.
+      change (inject_Z 10) with (10 # 1). ring.
+  - (* the grid is finer than the offset: the offset is a whole number of grid steps and no carry
+       can reach 10^e; contradiction *)
+    exfalso. assert (OM := OMB ltac:(lia)). remember (10 ^ (dig - e - 12))%Z as M eqn:HM.
+    assert (ZU : (Z.abs z <= N - M)%Z).
+    { rewrite ZK. apply rnd_he_abs_le. rewrite Qa.
+      setoid_replace (inject_Z (N - M)) with ((P - log_offset) * K).
+      - apply Qmult_le_compat_r; lra.
+      - unfold Zminus. rewrite inject_Z_plus, inject_Z_opp, PN, OM.
+        setoid_replace ((inject_Z N * g - inject_Z M * g) * K) with ((inject_Z N - inject_Z M) * (g * K)) by ring.
+        rewrite GK. ring. }
+    assert (T : inject_Z (Z.abs z) * g <= (inject_Z N - inject_Z M) * g).
+    { apply Qmult_le_compat_r; [|lra].
+      setoid_replace (inject_Z N - inject_Z M) with (inject_Z (N - M))
+        by (unfold Zminus; rewrite inject_Z_plus, inject_Z_opp; reflexivity).
+      rewrite <- Zle_Qle. exact ZU. }
+    rewrite Ra, PN, OM in Y. lra.
+Qed.
+
+Theorem round_spec_idem_sig (dig : Z) (d : Q) : (0 < dig)%Z -> round_spec dig (round_spec dig d) = round_spec dig d.
+Proof.
+  intro Hd. destruct (Qeq_bool d neg_zero) eqn:G.
+  - rewrite (round_spec_passthrough dig d G). apply round_spec_passthrough. exact G.
+  - pose proof (round_spec_sig_eq dig d G Hd) as R.
+    destruct (Z_le_gt_dec (sig_exp (round_spec dig d)) (sig_exp d)) as [L|L].
+    + apply round_spec_idem_partial. right. exact L.
+    + rewrite R in *. set (r := round_dec (dig - sig_exp d) d) in *.
+      destruct (Qeq_bool r neg_zero) eqn:E; [apply round_spec_passthrough; exact E|].
+      rewrite (round_spec_sig_eq dig r E Hd).
+      destruct (round_sig_carry dig d (sig_exp d) (sig_exp r) r Hd eq_refl eq_refl eq_refl ltac:(lia)) as (E' & s & _ & Rs).
+      rewrite E'.
+      apply canonQ_eq; [apply round_dec_canon|apply round_dec_canon|].
+      apply (round_dec_on_grid (dig - (sig_exp d + 1)) (dig - (sig_exp d + 1)) (s * 10 ^ (dig - 1)) r); [lia|exact Rs].
+Qed.
+
+Theorem round_spec_idem (dig : Z) (d : Q) : round_spec dig (round_spec dig d) = round_spec dig d.
+Proof.
+  destruct (Z_le_gt_dec dig 0) as [L|L]; [apply round_spec_idem_dec; exact L|apply round_spec_idem_sig; lia].
+Qed.
+
+Theorem round_row_idem (digs : list Z) : forall row, round_row digs (round_row digs row) = round_row digs row.
+Proof.
+  induction digs as [|dg ds IH]; intros [|d r]; cbn [round_row]; try reflexivity.
+  f_equal; [apply round_spec_idem|apply IH].
+Qed.
+
+Theorem round_all_idem (dig : Z) (row : list Q) : round_all dig (round_all dig row) = round_all dig row.
+Proof.
+  unfold round_all. induction row as [|d r IH]; cbn [map]; [reflexivity|]. f_equal; [apply round_spec_idem|exact IH].
+Qed.
